@@ -12,6 +12,7 @@ mod gen;
 mod pool;
 mod refs;
 mod selftest;
+mod signer;
 mod util;
 
 use std::time::Instant;
